@@ -555,8 +555,10 @@ class _setitem_base:
     """C08 (decision + frame): for int and slice keys with a scalar or a list value — bad index /
     length mismatch raise; on success length and name are unchanged, the column kind is the
     ladder fold over EVERY written value (existing elements converted by _promote), None makes it
-    nullable, and no value was rejected; SerifTypeError only arises from the ladder.  Element
-    values after the write are bounded-only (scatter-loop abstraction)."""
+    nullable, and no value was rejected; SerifTypeError only arises from the ladder.  For an int
+    key with a scalar value the CONTENTS after the write are proved too (the addressed cell holds
+    the value, every other cell is the old one, converted only by the promotion); for list values
+    element values go through the scatter-loop abstraction and are bounded only."""
     params = {'self': 'vector', 'key': 'alt:int|slice', 'value': 'alt:scalar|list_any'}
     may_raise = [AliasError, SerifTypeError]
     raises = [(SerifIndexError, _bad_int_key, True), (SerifValueError, _bad_slice, True),
@@ -580,7 +582,46 @@ class _setitem_base:
         else:
             st = S.setitem_kind_state(old._dtype, vals)
             kind_ok = (not st[1]) and self._dtype.kind is st[0]
-        return kind_ok and self._dtype.nullable == (old._dtype.nullable or any(v is None for v in vals))
+        if not (kind_ok and self._dtype.nullable == (old._dtype.nullable or any(v is None for v in vals))):
+            return False
+        if isinstance(key, int) and not isinstance(value, list):
+            # contents (single cell): exactly what list assignment gives, other cells converted by
+            # the promotion only
+            return tuple(self._underlying) == _expected_after_int_write(old, key, value, self._dtype.kind)
+        if isinstance(key, list) and isinstance(value, list):
+            return _index_list_write_ok(self, old, key, value, old._dtype.kind is self._dtype.kind)
+        return True
+
+
+def _nk(i, n):
+    return i if i >= 0 else i + n
+
+
+def _index_list_write_ok(self, old, key, value, same_kind):
+    """Contents after `v[[i0, i1, ...]] = [x0, x1, ...]`, as sequential list assignment gives them
+    (a repeated index: the last value wins): a cell no index addresses keeps its (converted) old
+    element; the cell of an index that is not repeated later holds that index's value."""
+    from contracts.specs import forall, implies, at, same
+    n = len(old._underlying)
+    new_kind = self._dtype.kind
+    # the old contents as the promotion leaves them (elementwise; identity when the kind is unchanged)
+    kept = old._underlying if same_kind else tuple(S.convert_value(new_kind, x) for x in old._underlying)
+    return (
+        forall('i', lambda j: implies(
+            0 <= j < n and forall('i', lambda t: implies(0 <= t < len(key), _nk(at(key, t), n) != j)),
+            same(at(self._underlying, j), at(kept, j))))
+        and forall('i', lambda t: implies(
+            0 <= t < len(key) and forall('i', lambda u: implies(t < u < len(key), _nk(at(key, u), n) != _nk(at(key, t), n))),
+            same(at(self._underlying, _nk(at(key, t), n)), at(value, t))))
+    )
+
+
+def _expected_after_int_write(old, key, value, new_kind):
+    n = len(old._underlying)
+    k = key if key >= 0 else key + n
+    if old._dtype.kind is new_kind:
+        return tuple(value if j == k else x for j, x in enumerate(old._underlying))
+    return tuple(value if j == k else S.convert_value(new_kind, x) for j, x in enumerate(old._underlying))
 
 
 def _setitem_variant(name, key_sort, value_sort, primary=False, tier='quick'):
